@@ -2,8 +2,10 @@
    written from the specification like Spec/Format*.v.
      IV.A.2.t  0x0013 B-tree 'K' values message (superblock extension)
      III.G     fractal heap indirect block
-     III.A.2   version 2 B-tree internal node *)
-From HV Require Import Base.Prelude Base.Outcome Base.Bytes Spec.Parse Spec.Format Spec.FormatNode.
+     III.A.2   version 2 B-tree internal node
+     IV.A.2.i  0x0008 data layout message, versions 1 / 2 and version 4
+     IV.A.2.p  shared message (the body of a message whose flag bit 1 is set; shared datatype / dataspace of an attribute) *)
+From HV Require Import Base.Prelude Base.Outcome Base.Bytes Spec.Parse Spec.Format Spec.FormatMsg Spec.FormatNode.
 
 (* ------------------------------------------------------------------ 0x0013 B-tree 'K' values
    version (0) | indexed storage internal node K (2) | group internal node K (2) | group leaf node K (2)
@@ -80,3 +82,151 @@ Definition spec_dec_bt2internal (tol : tolerance) (osz : nat) (btype : N) (nrec 
 Definition bytes_for (v : N) : N := if v =? 0 then 1 else N.log2 v / 8 + 1.
 (* records that fit a leaf / an internal node of [ns] bytes (10 bytes of prefix and checksum) *)
 Definition bt2_leaf_cap (ns rs : N) : N := (ns - 10) / rs.
+
+(* ------------------------------------------------------------------ 0x0008 data layout, versions 1 and 2
+   version (1, 2) | dimensionality | layout class (0 compact, 1 contiguous, 2 chunked) | reserved (5) |
+   [data address (O): contiguous - the raw data, chunked - the v1 B-tree; absent for compact] |
+   dimension sizes (4 each, [dimensionality] of them; chunked: dimensionality = dataset rank + 1 and the last one is the dataset
+   element size) | [compact: data size (4) | raw data]
+   The size of contiguous storage is not stored: it is the product of the dimension sizes and the element size.  The reference
+   library up to 1.4 wrote the element size as an extra last dimension for every layout class (dimensionality = rank + 1; the
+   specification says so for chunked storage only) and ignores the dimension sizes of contiguous storage when reading: both
+   dimensionalities are accepted for contiguous storage - [rank] (of the dataspace) + 1 with the last size equal to the element size
+   [esz] of the datatype, or [rank].  Same result type as the version 3 decoder. *)
+Definition spec_dec_layout12 (osz : nat) (rank : nat) (esz : N) (pad_ok : bool) (bs : bytes) : outcome layout_spec :=
+  '(ver, r) <- p_byte bs;;
+  _ <- guard ((ver =? 1) || (ver =? 2));;
+  '(nd, r) <- p_byte r;;
+  '(cls, r) <- p_byte r;;
+  '(_, r) <- p_zeros 5 r;;
+  if cls =? 0 then
+    '(dims, r) <- p_us 4 (N.to_nat nd) r;;
+    '(sz, r) <- p_u 4 r;; '(d, r) <- p_take (N.to_nat sz) r;; _ <- p_end pad_ok r;; Ok (LyCompact d)
+  else if cls =? 1 then
+    '(a, r) <- p_u osz r;;
+    '(dims, r) <- p_us 4 (N.to_nat nd) r;;
+    _ <- p_end pad_ok r;;
+    let p := fold_left N.mul dims 1 in
+    if (N.to_nat nd =? S rank)%nat then _ <- guard (last dims 0 =? esz);; Ok (LyContiguous a p)
+    else _ <- guard (N.to_nat nd =? rank)%nat;; Ok (LyContiguous a (p * esz))
+  else if cls =? 2 then
+    _ <- guard (0 <? nd);;
+    '(a, r) <- p_u osz r;;
+    '(dims, r) <- p_us 4 (N.to_nat nd) r;;
+    _ <- guard (forallb (fun d => 0 <? d) dims);;
+    _ <- p_end pad_ok r;;
+    Ok (LyChunked a dims)
+  else Err.
+
+(* ------------------------------------------------------------------ 0x0008 data layout, version 4
+   version (4) | layout class | compact, contiguous: as in version 3 |
+   chunked: flags (bit 0 do not filter partial edge chunks, bit 1 the single chunk is filtered) | dimensionality (rank + 1) |
+            encoded length of a dimension size (1..8) | dimension sizes (the last is the element size) | chunk indexing type |
+            indexing information | address (O)
+     indexing type 1 single chunk:     [flag bit 1: size of the filtered chunk (L) | filter mask (4)]
+                   2 implicit:         nothing (all chunks, in order, from the address on)
+                   3 fixed array:      page bits (1)
+                   4 extensible array: maximum bits, index elements, minimum pointers, minimum elements, page bits (1 each)
+                   5 v2 B-tree:        node size (4) | split percent (1) | merge percent (1)
+   virtual (class 3): global heap address (O) | index (4) *)
+Inductive chunk_index :=
+| CISingle (filtered : option (N * N))
+| CIImplicit
+| CIFixedArray (pagebits : N)
+| CIExtArray (params : list N)
+| CIBtree2 (nodesize split merge : N).
+Inductive layout4_spec :=
+| L4Plain (l : layout_spec)
+| L4Chunked (flags : N) (dims : list N) (idx : chunk_index) (addr : N)
+| L4Virtual (heap index : N).
+
+Definition spec_dec_layout4 (osz lsz : nat) (pad_ok : bool) (bs : bytes) : outcome layout4_spec :=
+  '(ver, r) <- p_byte bs;;
+  _ <- guard (ver =? 4);;
+  '(cls, r) <- p_byte r;;
+  if cls =? 0 then
+    '(sz, r) <- p_u 2 r;; '(d, r) <- p_take (N.to_nat sz) r;; _ <- p_end pad_ok r;; Ok (L4Plain (LyCompact d))
+  else if cls =? 1 then
+    '(a, r) <- p_u osz r;; '(s, r) <- p_u lsz r;; _ <- p_end pad_ok r;; Ok (L4Plain (LyContiguous a s))
+  else if cls =? 2 then
+    '(fl, r) <- p_byte r;; _ <- guard (fl <? 4);;
+    '(nd, r) <- p_byte r;; _ <- guard (0 <? nd);;
+    '(el, r) <- p_byte r;; _ <- guard ((0 <? el) && (el <=? 8));;
+    '(dims, r) <- p_us (N.to_nat el) (N.to_nat nd) r;;
+    _ <- guard (forallb (fun d => 0 <? d) dims);;
+    '(it, r) <- p_byte r;;
+    '(idx, r) <-
+      (if it =? 1 then
+         if N.testbit fl 1 then '(sz, r) <- p_u lsz r;; '(mask, r) <- p_u 4 r;; Ok (CISingle (Some (sz, mask)), r)
+         else Ok (CISingle None, r)
+       else if it =? 2 then Ok (CIImplicit, r)
+       else if it =? 3 then '(pb, r) <- p_byte r;; Ok (CIFixedArray pb, r)
+       else if it =? 4 then '(ps, r) <- p_us 1 5 r;; Ok (CIExtArray ps, r)
+       else if it =? 5 then '(ns, r) <- p_u 4 r;; '(sp, r) <- p_byte r;; '(mg, r) <- p_byte r;; Ok (CIBtree2 ns sp mg, r)
+       else Err);;
+    '(a, r) <- p_u osz r;;
+    _ <- p_end pad_ok r;;
+    Ok (L4Chunked fl dims idx a)
+  else if cls =? 3 then
+    '(a, r) <- p_u osz r;; '(i, r) <- p_u 4 r;; _ <- p_end pad_ok r;; Ok (L4Virtual a i)
+  else Err.
+
+(* ------------------------------------------------------------------ shared message (IV.A.2.p; the body that replaces a message when
+   its flag bit 1 is set, and the datatype / dataspace field of an attribute whose flag bit 0 / 1 is set)
+   version 1: version | type (0) | reserved (6) | [name offset (L)] | address (O)
+   version 2: version | type (0; the reference library 1.8 writes 2, committed, as in version 3) | address (O)
+   version 3: version | type (0 not shared / not in a heap, 1 in the shared message heap: 8-byte heap ID,
+                              2 committed message: address (O), 3 not shared) | location
+   -> the address of the object header that holds the message (types 0 and 2); a message in the shared message heap is not followed *)
+(* the rest of a shared message: nothing, or (version 1 object headers) zero bytes - the reference library leaves a message slot that
+   was sized for a datatype description zero-filled when the description is replaced by the reference to a committed datatype *)
+Definition p_zpad (pad_ok : bool) (r : bytes) : outcome unit :=
+  match r with [] => Ok tt | _ => guard (pad_ok && all_zero r) end.
+Definition spec_dec_shared (osz lsz : nat) (pad_ok : bool) (bs : bytes) : outcome N :=
+  '(ver, r) <- p_byte bs;;
+  '(ty, r) <- p_byte r;;
+  if ver =? 1 then
+    (* as written by the reference library up to 1.6 the location is a symbol table entry remnant: the offset of a name in a local
+       heap (L, not interpreted; the specification text omits it) precedes the address *)
+    _ <- guard (ty =? 0);; '(_, r) <- p_zeros 6 r;;
+    if (length r <? lsz + osz)%nat then '(a, r) <- p_u osz r;; _ <- p_zpad pad_ok r;; Ok a
+    else '(_, r) <- p_take lsz r;; '(a, r) <- p_u osz r;; _ <- p_zpad pad_ok r;; Ok a
+  else if ver =? 2 then
+    _ <- guard ((ty =? 0) || (ty =? 2));; '(a, r) <- p_u osz r;; _ <- p_zpad pad_ok r;; Ok a
+  else if ver =? 3 then
+    _ <- guard (ty =? 2);; '(a, r) <- p_u osz r;; _ <- p_zpad pad_ok r;; Ok a
+  else Err.
+
+(* ------------------------------------------------------------------ 0x000C attribute whose datatype is shared (flag bit 0 of versions 2
+   and 3): the datatype field is a shared message; [shared_dt] resolves it (the walker reads the committed datatype's object header).
+   A shared dataspace (flag bit 1) is not followed. *)
+Definition spec_dec_attribute_sh (tol : tolerance) (lsz : nat) (pad_ok : bool) (shared_dt : bytes -> outcome (dtype * list tag))
+  (bs : bytes) : outcome (attribute_spec * list tag) :=
+  '(ver, r) <- p_byte bs;;
+  _ <- guard ((2 <=? ver) && (ver <=? 3));;
+  '(fl, r) <- p_byte r;;
+  _ <- guard (fl =? 1);;
+  '(ns, r) <- p_u 2 r;; '(ts, r) <- p_u 2 r;; '(ss, r) <- p_u 2 r;;
+  '(cset, r) <- (if ver =? 3 then '(c, r) <- p_byte r;; _ <- guard (c <? 2);; Ok (c, r) else Ok (0, r));;
+  '(nameb, r) <- p_take (N.to_nat ns) r;;
+  '(name, z) <- p_cstr nameb;;
+  _ <- guard ((length z =? 0)%nat && negb (length name =? 0)%nat);;
+  '(tb, r) <- p_take (N.to_nat ts) r;;
+  '(t, tg) <- shared_dt tb;;
+  '(sb, r) <- p_take (N.to_nat ss) r;;
+  sp <- spec_dec_dataspace lsz false sb;;
+  '(data, r) <- p_take (N.to_nat (nelem sp * dtype_size t)) r;;
+  _ <- p_end pad_ok r;;
+  Ok ({| as_version := ver; as_cset := cset; as_name := name; as_dtype := t; as_space := sp; as_data := data |}, tg).
+
+(* the committed datatype an attribute with a shared datatype refers to (the reference library counts every such use in the committed
+   datatype's object reference count) *)
+Definition attr_shared_addr (osz lsz : nat) (bs : bytes) : outcome N :=
+  '(ver, r) <- p_byte bs;;
+  '(fl, r) <- p_byte r;;
+  _ <- guard ((2 <=? ver) && (ver <=? 3) && (fl =? 1));;
+  '(ns, r) <- p_u 2 r;; '(ts, r) <- p_u 2 r;; '(ss, r) <- p_u 2 r;;
+  '(_, r) <- (if ver =? 3 then p_take 1 r else Ok ([], r));;
+  '(_, r) <- p_take (N.to_nat ns) r;;
+  '(tb, r) <- p_take (N.to_nat ts) r;;
+  spec_dec_shared osz lsz false tb.
